@@ -10,7 +10,7 @@ LEVEL = "proof"
 TRUSTED = cm.TRUSTED + ["the reference grammar (lean/SmtpV/Spec/Rfc5321.lean) is a hand-written recogniser of RFC 5321 4.1.2 without SMTPUTF8"]
 ASSUMPTIONS = ["documented leniencies are 'unspecified' and not judged: missing angle brackets, spaces after the colon, bare-LF line end, "
                "parameter directly after '>', duplicate parameters, a value on a flag parameter, malformed source routes"]
-RULE = ("parse probe (parseCmd, parseArgs, parseHelloArgument, the four path-parser entry points, cutPrefixFold): every string up to the "
+RULE = ("conv probe, parameters against a reference: MAIL/RCPT lines built from known option values (every subset, random order, random letter case, xtext with superfluous escapes, RRVS in several zones) - the backend must see exactly these values, once; single faulty parameters (alone or among good ones) and parameters of disabled extensions - 5xx and no backend call | " "parse probe (parseCmd, parseArgs, parseHelloArgument, the four path-parser entry points, cutPrefixFold): every string up to the "
         "tier's length over the 16 symbols {'<','>','@',':',',','\"','\\\\','.',SP,TAB,'a','[',']',NUL,e-acute,'-'}, grammar-generated valid paths and "
         "every single-point mutation of them, command lines over {NUL,CR,LF,SP,TAB,'a','S',long-s,':',0x80}; each path is classified by the "
         "reference grammar into valid / invalid(class) / unspecified and the parser's verdict judged. conv probe: MAIL/RCPT lines with each "
@@ -80,6 +80,120 @@ def mailargs_cases(tier, rng):
     return cases
 
 
+# --- parameters against a reference: grammar-derived lines whose meaning is known by construction ------------------------------
+def _xtext(raw, rng, extra=0.0):
+    """RFC 3461 xtext, written independently of the library: '+', '=' and everything outside 33..126 as +HH (upper-case hex);
+    with `extra`, also characters that need no encoding (any character may be hex-encoded)"""
+    out = b""
+    for ch in raw:
+        if ch < 33 or ch > 126 or ch in b"+=" or rng.random() < extra:
+            out += b"+%02X" % ch
+        else:
+            out += bytes([ch])
+    return out
+
+
+def _hx(b):
+    return b.hex() if b else "-"
+
+
+def _recase(k, rng):
+    how = rng.randrange(3)
+    return k if how == 0 else k.lower() if how == 1 else bytes(c ^ 0x20 if chr(c).isalpha() and rng.random() < 0.5 else c for c in k)
+
+
+def reference_cases(tier, rng):
+    """MAIL/RCPT lines built from known option values (every subset, random order, random letter case of keywords and of the
+    case-insensitive values, xtext with superfluous hex escapes) -> the backend must see exactly these values; and single faulty
+    parameters among good ones, parameters of disabled extensions -> a 5xx reply and no backend call"""
+    import itertools
+    from datetime import datetime, timezone, timedelta
+    ALL = dict(utf8=1, reqtls=1, binmime=1, dsn=1, rrvs=1)
+    cases = []
+    def mail_case(fl, toks, xp):
+        c = g.Conv(fl); c.add(b"EHLO x\r\n"); c.add(b"MAIL FROM:<s@x>" + b"".join(b" " + t for t in toks) + b"\r\n"); c.add(b"NOOP\r\n")
+        cases.append(c.case(seg="line") + "\tXP=" + xp)
+    def rcpt_case(fl, toks, xp):
+        c = g.Conv(fl); c.add(b"EHLO x\r\n"); c.add(b"MAIL FROM:<s@x>\r\n")
+        c.add(b"RCPT TO:<r@x>" + b"".join(b" " + t for t in toks) + b"\r\n"); c.add(b"NOOP\r\n")
+        cases.append(c.case(seg="line") + "\tXP=" + xp)
+    n = 400 if tier == "quick" else 4000
+    envids = [b"e1", b"a+b=c d", b"QUJDRA==", b"x" * 40, b"~!#$%&'()*,-./:;<>?@[\\]^_`{|}"]
+    auths = [b"", b"u@d.org", b"first.last+tag@sub.d.org", b"a=b@d"]
+    for _ in range(n):
+        o = dict(body=b"", size=0, reqtls=0, utf8=0, ret=b"", envid=b"", auth=None)
+        toks = []
+        if rng.random() < 0.5:
+            o["size"] = rng.choice([1, 42, 99999, 4294967295]); toks.append(_recase(b"SIZE", rng) + b"=%d" % o["size"])
+        if rng.random() < 0.5:
+            o["body"] = rng.choice([b"7BIT", b"8BITMIME", b"BINARYMIME"]); toks.append(_recase(b"BODY", rng) + b"=" + _recase(o["body"], rng))
+        if rng.random() < 0.4:
+            o["utf8"] = 1; toks.append(_recase(b"SMTPUTF8", rng))
+        if rng.random() < 0.4:
+            o["reqtls"] = 1; toks.append(_recase(b"REQUIRETLS", rng))
+        if rng.random() < 0.5:
+            o["ret"] = rng.choice([b"FULL", b"HDRS"]); toks.append(_recase(b"RET", rng) + b"=" + _recase(o["ret"], rng))
+        if rng.random() < 0.5:
+            o["envid"] = rng.choice(envids); toks.append(_recase(b"ENVID", rng) + b"=" + _xtext(o["envid"], rng, rng.choice([0, 0, 0.3])))
+        if rng.random() < 0.5:
+            o["auth"] = rng.choice(auths)
+            toks.append(_recase(b"AUTH", rng) + b"=" + (b"<>" if o["auth"] == b"" else _xtext(o["auth"], rng, rng.choice([0, 0.3]))))
+        rng.shuffle(toks)
+        xp = "M:body=%s,size=%d,reqtls=%d,utf8=%d,ret=%s,envid=%s,auth=%s" % (_hx(o["body"]), o["size"], o["reqtls"], o["utf8"], _hx(o["ret"]),
+                                                                            _hx(o["envid"]), "nil" if o["auth"] is None else _hx(o["auth"]))
+        mail_case(ALL, toks, xp)
+    notifies = [[b"NEVER"], [b"SUCCESS"], [b"FAILURE", b"DELAY"], [b"DELAY", b"SUCCESS", b"FAILURE"], [b"SUCCESS", b"FAILURE"]]
+    orcpts = [b"o@x.org", b"bob;ext@example.com", b"a+b=c d@x", b"o@x;"]
+    for _ in range(n):
+        o = dict(notify=[], orcpttype=b"", orcpt=b"", rrvs=None)
+        toks = []
+        if rng.random() < 0.6:
+            o["notify"] = rng.choice(notifies); toks.append(_recase(b"NOTIFY", rng) + b"=" + b",".join(_recase(v, rng) for v in o["notify"]))
+        if rng.random() < 0.6:
+            o["orcpttype"], o["orcpt"] = b"RFC822", rng.choice(orcpts)
+            toks.append(_recase(b"ORCPT", rng) + b"=" + _recase(b"rfc822", rng) + b";" + _xtext(o["orcpt"], rng, rng.choice([0, 0.3])))
+        if rng.random() < 0.5:
+            t = rng.choice([0, 1577934245, 951868799, 4102444799, 1709251199])
+            off = rng.choice([0, 0, 3600, -18000, 19800, 50400])
+            o["rrvs"] = t
+            dt = datetime.fromtimestamp(t, timezone(timedelta(seconds=off)))
+            txt = dt.strftime("%Y-%m-%dT%H:%M:%S") + ("Z" if off == 0 and rng.random() < 0.7 else "%s%02d:%02d" % ("+" if off >= 0 else "-", abs(off) // 3600, abs(off) % 3600 // 60))
+            toks.append(_recase(b"RRVS", rng) + b"=" + txt.encode() + rng.choice([b"", b"", b";C", b";R"]))
+        rng.shuffle(toks)
+        xp = "R:notify=%s,orcpttype=%s,orcpt=%s,rrvs=%s" % ("+".join(_hx(v) for v in o["notify"]), _hx(o["orcpttype"]), _hx(o["orcpt"]),
+                                                           "nil" if o["rrvs"] is None else str(o["rrvs"]))
+        rcpt_case(ALL, toks, xp)
+    # one faulty parameter, alone or among good ones (the refusal does not depend on the order in which parameters are examined)
+    mbad = [b"SIZE=abc", b"SIZE=", b"SIZE=-1", b"SIZE=1=2", b"BODY=9BIT", b"BODY=", b"RET=SOME", b"RET=", b"ENVID=", b"ENVID=a+2", b"ENVID=a+zz", b"ENVID=a+07b",
+            b"ENVID=a=b", b"AUTH=+ZZ", b"AUTH=a+20b", b"AUTH=", b"XYZ=1", b"FOO", b"=1", b"SMTPUTF8=1=2"]
+    mgood = [b"SIZE=5", b"BODY=8BITMIME", b"RET=FULL", b"ENVID=ok", b"SMTPUTF8", b"AUTH=<>"]
+    for bad in mbad:
+        mail_case(ALL, [bad], "REFUSED:M")
+        for _ in range(3):
+            others = [t for t in rng.sample(mgood, rng.randrange(1, 4)) if t.split(b"=")[0] != bad.split(b"=")[0]]
+            toks = others + [bad]; rng.shuffle(toks)
+            mail_case(ALL, toks, "REFUSED:M")
+    rbad = [b"NOTIFY=NEVER,SUCCESS", b"NOTIFY=SUCCESS,NEVER", b"NOTIFY=FAILURE,DELAY,NEVER", b"notify=success,never", b"NOTIFY=SUCCESS,SUCCESS", b"NOTIFY=SUCCESS,",
+            b"NOTIFY=,SUCCESS", b"NOTIFY=", b"NOTIFY=BOGUS", b"NOTIFY=SUCCESS=1", b"ORCPT=rfc822", b"ORCPT=rfc822;", b"ORCPT=;a@b", b"ORCPT=rfc822;a+zz", b"ORCPT=rfc822;a+07b",
+            b"RRVS=notatime", b"RRVS=2021-02-29T00:00:00Z", b"RRVS=", b"FOO", b"FOO=1"]
+    rgood = [b"NOTIFY=SUCCESS", b"ORCPT=rfc822;o@x", b"RRVS=2020-01-02T03:04:05Z"]
+    for bad in rbad:
+        rcpt_case(ALL, [bad], "REFUSED:R")
+        for _ in range(2):
+            others = [t for t in rng.sample(rgood, rng.randrange(1, 3)) if t.split(b"=")[0].upper() != bad.split(b"=")[0].upper()]
+            toks = others + [bad]; rng.shuffle(toks)
+            rcpt_case(ALL, toks, "REFUSED:R")
+    # parameters of disabled extensions
+    for flag, tok in (("utf8", b"SMTPUTF8"), ("reqtls", b"REQUIRETLS"), ("binmime", b"BODY=BINARYMIME"), ("dsn", b"RET=FULL"), ("dsn", b"ENVID=e")):
+        for t in (tok, tok.lower(), _recase(tok, rng)):
+            mail_case(dict(ALL, **{flag: 0}), [t], "REFUSED:M")
+            mail_case(dict(ALL, **{flag: 0}), [b"SIZE=3", t], "REFUSED:M")
+    for flag, tok in (("dsn", b"NOTIFY=SUCCESS"), ("dsn", b"ORCPT=rfc822;o@x"), ("rrvs", b"RRVS=2020-01-02T03:04:05Z")):
+        for t in (tok, tok.lower(), _recase(tok, rng)):
+            rcpt_case(dict(ALL, **{flag: 0}), [t], "REFUSED:R")
+    return cases
+
+
 def groups(tier, rng):
     L = 4 if tier == "quick" else 5
     paths, cmds, mut = [], [], []
@@ -112,7 +226,8 @@ def groups(tier, rng):
     return [Group("parse/paths-enumerated", paths, project=project, theorems=THEOREMS),
             Group("parse/paths-mutated", mut, project=project, theorems=THEOREMS),
             Group("parse/commands-and-args", cmds, project=project, theorems=THEOREMS, monitor=False),
-            Group("conv/mail-rcpt-parameters", mailargs_cases(tier, rng), project=project, theorems=THEOREMS, monitor=False)]
+            Group("conv/mail-rcpt-parameters", mailargs_cases(tier, rng), project=project, theorems=THEOREMS, monitor=False),
+            Group("conv/parameters-against-reference", reference_cases(tier, rng), project=project, theorems=THEOREMS)]
 
 
 def replay_groups(path):
